@@ -304,6 +304,10 @@ import datetime as _dt
 import math as _math
 import decimal as _decimal
 _PURE_LIBS = {'re': _re, 'datetime': _dt, 'math': _math, 'decimal': _decimal}
+import os as _os_mod      # noqa: E402
+import stat as _stat_mod  # noqa: E402
+import errno as _errno_mod  # noqa: E402
+_FLAG_LIBS = {'os': _os_mod, 'stat': _stat_mod, 'errno': _errno_mod}      # only their integer / string constants are looked at
 import time as _time
 _PURE_TYPES = (_re.Match, _re.Pattern, _dt.datetime, _dt.date, _dt.timedelta, _dt.time, _decimal.Decimal, _decimal.Context, _time.struct_time)
 _PURE_DENY = {'datetime.datetime.now', 'datetime.datetime.today', 'datetime.date.today', 'datetime.datetime.utcnow'}
@@ -756,7 +760,8 @@ class Interp:
                         return self._global(gref_, n)
                 if gref_ and gref_.startswith('ext:typing.') and gref_.rpartition('.')[2] in _TYPING_ORIGINS:
                     return Ref(gref_)
-                if gref_ and gref_.startswith('ext:') and gref_[4:].split('.')[0] in _PURE_LIBS and gref_ not in self.call_models:
+                if gref_ and gref_.startswith('ext:') and (gref_[4:].split('.')[0] in _PURE_LIBS or gref_[4:].split('.')[0] in _FLAG_LIBS) \
+                        and gref_ not in self.call_models:
                     val_ = self._global(gref_, n)
                     if not isinstance(val_, Ref):
                         return val_
@@ -1328,6 +1333,15 @@ class Interp:
                 if len(args) == 3:
                     return args[2]
                 raise ExcRaised(Ref('builtin:AttributeError'))
+            if isinstance(obj, Ref) and obj.ref[:4] == 'ext:' and obj.ref[4:] in _FLAG_LIBS:
+                lib_ = _FLAG_LIBS[obj.ref[4:]]
+                if not hasattr(lib_, args[1]):
+                    if len(args) == 3:
+                        return args[2]
+                    raise ExcRaised(Ref('builtin:AttributeError'))
+                if isinstance(getattr(lib_, args[1]), (int, str)):
+                    return getattr(lib_, args[1])
+                return Ref(f'{obj.ref}.{args[1]}')
             if isinstance(obj, Ref) and args[1].startswith('__') and args[1] not in ('__name__', '__doc__'):
                 # a class / NewType alias / function reference has none of the typing attributes (__origin__, __args__)
                 if len(args) == 3:
@@ -2416,6 +2430,21 @@ class Interp:
                     raise
                 self._dunder(val, '__exit__', None, None, None)
                 return
+            if isinstance(val, PyModel) and hasattr(val, '__exit__'):
+                entered = val.__enter__() if hasattr(val, '__enter__') else val
+                if item.optional_vars is not None:
+                    self.store(item.optional_vars, entered)
+                try:
+                    self._with(s, i + 1)
+                except ExcRaised as r_:
+                    if not val.__exit__(Ref('builtin:Exception'), r_.exc, None):
+                        raise
+                    return
+                except (_Return, _Break, _Continue):
+                    val.__exit__(None, None, None)
+                    raise
+                val.__exit__(None, None, None)
+                return
             if item.optional_vars is not None:
                 self.store(item.optional_vars, val)
             self._with(s, i + 1)
@@ -2723,6 +2752,8 @@ def _global_uncached(self, gref, n):
                 return obj_
             if isinstance(obj_, (_dt.time, _dt.date, _dt.timedelta, _decimal.Decimal, _dt.timezone)):     # immutable values (time.min, datetime.max, ...)
                 return obj_
+        if parts_[0] in _FLAG_LIBS and len(parts_) == 2 and isinstance(getattr(_FLAG_LIBS[parts_[0]], parts_[1], None), (int, str)):
+            return getattr(_FLAG_LIBS[parts_[0]], parts_[1])          # os.O_WRONLY, os.sep, stat.S_IRUSR, errno.ENOENT: platform constants
         try:
             return ext_constant(gref[4:])
         except KeyError:
